@@ -1,6 +1,7 @@
 import ChythonModel.Model.C16Patcher
 import ChythonModel.Spec.C16Deleted
 import ChythonModel.Proofs.C16Deleted
+import ChythonModel.Props.C16
 /-!
 # C16 — witnesses for the two repaired defects of `BaseReactor._get_deleted` (informational)
 
@@ -160,5 +161,59 @@ theorem v1_violates_exactness :
 /-- the current algorithm removes O3 -/
 theorem current_removes_atom3 : getDeleted w1 [101, 102] [(103, 5), (101, 1), (102, 2)] = .ok [1, 2, 3] := by
   simp [getDeleted, mapAll, outerLoop, visitNbrs, visitNbr, dfs, List.lookup, remainOf, w1]
+
+
+/-! ## known finding: the matcher's automorphism filter makes the product depend on which match is enumerated first
+
+`Transformer` / `Reactor` call the matcher with `automorphism_filter=True` by default; the filter keeps the first match
+onto each *set* of atoms. Two matches with the same image are not interchangeable for a template whose replacement breaks a
+symmetry of the pattern. At the level of this model: `patcher` applied to two matches with the same image gives different
+products. Witness: methylcyclohexane (ring 1…6, methyl 7 on atom 1), pattern = six-ring with atoms 11 12 13 4 masked and
+5, 6 named, replacement `[A:5]=[A:6]`; match `m1` puts the double bond on 5–6 (3-methylcyclohexene), the rotated match
+`m2` on 6–1 (1-methylcyclohexene). -/
+
+open ChythonModel.Model in
+def mch : Mol :=
+  ⟨[(1, {z := 6, implH := some 1}), (2, {z := 6, implH := some 2}), (3, {z := 6, implH := some 2}),
+    (4, {z := 6, implH := some 2}), (5, {z := 6, implH := some 2}), (6, {z := 6, implH := some 2}),
+    (7, {z := 6, implH := some 3})],
+   [(1, [(2, {order := 1}), (6, {order := 1}), (7, {order := 1})]), (2, [(1, {order := 1}), (3, {order := 1})]),
+    (3, [(2, {order := 1}), (4, {order := 1})]), (4, [(3, {order := 1}), (5, {order := 1})]),
+    (5, [(4, {order := 1}), (6, {order := 1})]), (6, [(5, {order := 1}), (1, {order := 1})]), (7, [(1, {order := 1})])]⟩
+
+def ringT : Template where
+  pattern := [(11, true), (12, true), (13, true), (4, true), (5, false), (6, false)]
+  replIsQuery := true
+  replAtoms := [(5, {kind := .any}), (6, {kind := .any})]
+  replBonds := [(5, [(6, [2])]), (6, [(5, [2])])]
+  deleteAtoms := true
+
+def m1 : List (Nat × Nat) := [(11, 1), (12, 2), (13, 3), (4, 4), (5, 5), (6, 6)]
+def m2 : List (Nat × Nat) := [(11, 2), (12, 3), (13, 4), (4, 5), (5, 6), (6, 1)]
+
+open ChythonModel.Props.C16 (SameImageSameProduct)
+
+theorem same_image : ∀ v, v ∈ m1.map (·.2) ↔ v ∈ m2.map (·.2) := by
+  intro v; simp [m1, m2]; omega
+
+theorem products_differ :
+    (match patcher mch ringT (toDeleteOf ringT) m1, patcher mch ringT (toDeleteOf ringT) m2 with
+     | .ok pa, .ok pb => pa.mol.bond? 5 6 == some {order := 2} && pb.mol.bond? 5 6 == some {order := 1}
+                         && pb.mol.bond? 6 1 == some {order := 2} && pa.mol.bond? 6 1 == some {order := 1}
+     | _, _ => false) = true := by decide +kernel
+
+theorem automorphism_filter_choice_matters : ¬ SameImageSameProduct := by
+  intro h
+  have hd := products_differ
+  cases ha : patcher mch ringT (toDeleteOf ringT) m1 with
+  | error e => simp [ha] at hd
+  | ok pa =>
+    cases hb : patcher mch ringT (toDeleteOf ringT) m2 with
+    | error e => simp [ha, hb] at hd
+    | ok pb =>
+      simp only [ha, hb, Bool.and_eq_true, beq_iff_eq] at hd
+      have := h mch ringT m1 m2 pa pb same_image ha hb 5 6
+      rw [hd.1.1.1, hd.1.1.2] at this
+      cases this
 
 end ChythonModel.Findings.C16
